@@ -19,7 +19,7 @@ use lance::Dataset;
 use lance_index::scalar::ScalarIndexParams;
 use lance_index::IndexType;
 use serde::{Deserialize, Serialize};
-use serde_json::json;
+use serde_json::{json, Value};
 use std::collections::{BTreeMap, BTreeSet};
 use std::path::{Path, PathBuf};
 use std::sync::{Arc, Mutex};
@@ -147,151 +147,149 @@ impl Sys {
         *self.stats.lock().unwrap().entry(k.to_string()).or_insert(0) += n;
     }
 
-    /// every check of the copied table; `st` describes what the original showed
-    async fn check_copy(&self, st: &St, path: &Path, op_kind: &str) -> Vec<Violation> {
-        let mut v = vec![];
-        let mode = if st.stable { "stable" } else { "plain" };
-        let case = json!({"versions": st.versions.keys().collect::<Vec<_>>(), "tags": st.tags, "has_index": st.has_index});
-        let ds = match open(path).await {
-            Ok(d) => d,
-            Err(e) => {
-                v.push(Violation::new("open-copy", &format!("{mode}/open-copy/{}", vds::err_class(&e)), format!("copy does not open: {e}"), case));
-                return v;
+    /// All observations of one table location, each taken under `catch` through one fresh session:
+    /// name -> {"ok": payload} | {"error": text} | {"panic": text}. Texts are normalised (digits and
+    /// the temp-directory name removed) so that the same failure at two locations compares equal.
+    fn observe(&self, st: &St, dir: &DirGuard) -> BTreeMap<String, Value> {
+        let path = dir.tbl();
+        let dir_name = dir.0.path().file_name().map(|n| n.to_string_lossy().to_string()).unwrap_or_default();
+        let norm = move |m: &str| -> String {
+            m.replace(&dir_name, "<dir>").chars().filter(|c| !c.is_ascii_digit()).take(160).collect()
+        };
+        let mut obs: BTreeMap<String, Value> = BTreeMap::new();
+        fn put<T: serde::Serialize>(obs: &mut BTreeMap<String, Value>, norm: &dyn Fn(&str) -> String, name: &str, r: Result<lance::Result<T>, String>) {
+            let v = match r {
+                Ok(Ok(t)) => json!({"ok": t}),
+                Ok(Err(e)) => json!({"error": format!("{}: {}", vds::err_class(&e), norm(&e.to_string()))}),
+                Err(p) => json!({"panic": norm(&p)}),
+            };
+            obs.insert(name.to_string(), v);
+        }
+        let ds = match vds::run_catch(open(&path)) {
+            Ok(Ok(d)) => {
+                obs.insert("open".into(), json!({"ok": d.version().version}));
+                d
+            }
+            other => {
+                put(&mut obs, &norm, "open", other.map(|r| r.map(|d| d.version().version)));
+                return obs;
             }
         };
-        // version list
-        match ds.versions().await {
-            Ok(vs) => {
-                let got: Vec<u64> = vs.iter().map(|x| x.version).collect();
-                let exp: Vec<u64> = st.versions.keys().copied().collect();
-                if got != exp {
-                    v.push(Violation::new("versions", &format!("{mode}/version-list"), format!("versions {got:?}, original had {exp:?}"), case.clone()));
-                }
-            }
-            Err(e) => v.push(Violation::new("versions", &format!("{mode}/version-list-error"), format!("versions() failed: {e}"), case.clone())),
+        put(&mut obs, &norm, "versions", vds::run_catch(async { ds.versions().await.map(|v| v.iter().map(|x| x.version).collect::<Vec<u64>>()) }));
+        let mut vers: BTreeSet<u64> = st.versions.keys().copied().collect();
+        if let Some(l) = obs["versions"].get("ok").and_then(|v| v.as_array()) {
+            vers.extend(l.iter().filter_map(|x| x.as_u64()));
         }
-        // every version equals the snapshot recorded at the original location
-        for (ver, exp) in &st.versions {
-            let what = match ds.checkout_version(*ver).await {
-                Ok(d) => match snap(&d).await {
-                    Ok(s) => snap_diff(exp, &s).map(|d| format!("differs: {}", d.chars().take(300).collect::<String>())),
-                    Err(e) => Some(format!("cannot be read: {e}")),
-                },
-                Err(e) => Some(format!("cannot be checked out: {e}")),
-            };
-            self.bump("version_snapshots_compared", 1);
-            if let Some(w) = what {
-                let latest = *ver == *st.versions.keys().last().unwrap();
-                let class: String = w.split(':').next().unwrap_or("").replace(' ', "-");
-                v.push(Violation::new(
-                    "version-vs-snapshot",
-                    &format!("{mode}/after-{op_kind}/{}-version-{class}", if latest { "latest" } else { "old" }),
-                    format!("version {ver} of the copy {w}"),
-                    case.clone(),
-                ));
-            }
+        for v in vers {
+            put(&mut obs, &norm, &format!("version/{v}"), vds::run_catch(async { snap(&ds.checkout_version(v).await?).await }));
+            self.bump("version_observations", 1);
         }
-        // tags
-        match ds.tags().list().await {
-            Ok(tags) => {
-                let got: BTreeMap<String, u64> = tags.iter().map(|(k, t)| (k.clone(), t.version)).collect();
-                if got != st.tags {
-                    v.push(Violation::new("tags", &format!("{mode}/tag-list"), format!("tags {got:?}, original had {:?}", st.tags), case.clone()));
-                }
-                for (t, ver) in &st.tags {
-                    self.bump("tag_checkouts", 1);
-                    match ds.checkout_version(t.as_str()).await {
-                        Ok(d) => {
-                            if d.version().version != *ver {
-                                v.push(Violation::new("tags", &format!("{mode}/tag-resolves-elsewhere"), format!("tag {t} -> {} not {ver}", d.version().version), case.clone()));
-                            } else if let (Ok(s), Some(exp)) = (snap(&d).await, st.versions.get(ver)) {
-                                if let Some(dif) = snap_diff(exp, &s) {
-                                    v.push(Violation::new("tags", &format!("{mode}/tag-content"), format!("tag {t}: {dif}"), case.clone()));
-                                }
-                            }
-                        }
-                        Err(e) => v.push(Violation::new("tags", &format!("{mode}/tag-checkout-error"), format!("tag {t}: {e}"), case.clone())),
-                    }
-                }
-            }
-            Err(e) => v.push(Violation::new("tags", &format!("{mode}/tag-list-error"), format!("tags().list() failed: {e}"), case.clone())),
+        put(
+            &mut obs,
+            &norm,
+            "tags",
+            vds::run_catch(async { ds.tags().list().await.map(|t| t.iter().map(|(k, c)| (k.clone(), c.version)).collect::<BTreeMap<String, u64>>()) }),
+        );
+        let mut tags: BTreeSet<String> = st.tags.keys().cloned().collect();
+        if let Some(m) = obs["tags"].get("ok").and_then(|v| v.as_object()) {
+            tags.extend(m.keys().cloned());
         }
-        // latest: indexed query, take, validate
-        let latest = st.versions.values().last().unwrap();
-        let kcol = 1usize;
-        let exp_k1: Vec<Vec<Cell>> = latest.rows.iter().filter(|r| r[kcol] == Cell::I(1)).cloned().collect();
-        match vds::scan_filter_cells(&ds, "k = 1").await {
-            Ok(got) => {
-                if got != exp_k1 {
-                    v.push(Violation::new(
-                        "indexed-query",
-                        &format!("{mode}/filter-k-eq-1/{}", if st.has_index { "indexed" } else { "unindexed" }),
-                        format!("k = 1 -> {got:?}, expected {exp_k1:?}"),
-                        case.clone(),
-                    ));
-                }
-            }
-            Err(e) => v.push(Violation::new("indexed-query", &format!("{mode}/filter-error"), format!("k = 1 failed: {e}"), case.clone())),
+        for t in tags {
+            put(&mut obs, &norm, &format!("tag/{t}"), vds::run_catch(async { snap(&ds.checkout_version(t.as_str()).await?).await }));
+            self.bump("tag_checkouts", 1);
         }
-        if st.has_index {
-            let mut sc = ds.scan();
-            if sc.filter("k = 1").is_ok() {
-                if let Ok(plan) = sc.explain_plan(false).await {
-                    if plan.contains("ScalarIndexQuery") {
-                        self.bump("indexed_queries_using_the_index", 1);
-                    } else {
-                        self.bump("indexed_queries_not_using_the_index", 1);
-                    }
-                }
-            }
-            match ds.load_indices().await {
-                Ok(ix) if ix.iter().any(|i| i.name == "k_idx") => {}
-                Ok(ix) => v.push(Violation::new("index-list", &format!("{mode}/index-missing"), format!("indices {:?}", ix.iter().map(|i| &i.name).collect::<Vec<_>>()), case.clone())),
-                Err(e) => v.push(Violation::new("index-list", &format!("{mode}/index-list-error"), format!("{e}"), case.clone())),
-            }
+        put(&mut obs, &norm, "filter-k-eq-1", vds::run_catch(vds::scan_filter_cells(&ds, "k = 1")));
+        put(
+            &mut obs,
+            &norm,
+            "filter-plan-uses-index",
+            vds::run_catch(async {
+                let mut sc = ds.scan();
+                sc.filter("k = 1")?;
+                Ok(sc.explain_plan(false).await?.contains("ScalarIndexQuery"))
+            }),
+        );
+        if obs["filter-plan-uses-index"].get("ok").and_then(|v| v.as_bool()) == Some(true) {
+            self.bump("indexed_queries_using_the_index", 1);
         }
-        let n = latest.rows.len();
+        put(
+            &mut obs,
+            &norm,
+            "indices",
+            vds::run_catch(async { ds.load_indices().await.map(|ix| ix.iter().map(|i| i.name.clone()).collect::<BTreeSet<String>>()) }),
+        );
+        let n = st.versions.values().last().map(|s| s.rows.len()).unwrap_or(0);
         if n > 0 {
             let offs = vec![(n - 1) as u64, 0];
-            let pr = ProjectionRequest::from_columns(["uid", "k", "v"], ds.schema());
-            match ds.take(&offs, pr).await {
-                Ok(b) => {
-                    let got = vds::cells::batch_rows(&b);
-                    let exp: Vec<Vec<Cell>> = offs.iter().map(|o| latest.rows[*o as usize][..3].to_vec()).collect();
-                    if got != exp {
-                        v.push(Violation::new("take", &format!("{mode}/take-mismatch"), format!("take {offs:?} -> {got:?}, expected {exp:?}"), case.clone()));
+            put(
+                &mut obs,
+                &norm,
+                "take",
+                vds::run_catch(async {
+                    let pr = ProjectionRequest::from_columns(["uid", "k", "v"], ds.schema());
+                    ds.take(&offs, pr).await.map(|b| vds::cells::batch_rows(&b))
+                }),
+            );
+            put(
+                &mut obs,
+                &norm,
+                "take_rows",
+                vds::run_catch(async {
+                    let (_, rows) = vds::scan_cells(&ds, true, false).await?;
+                    let ids: Vec<u64> = rows.iter().filter_map(|r| if let Some(Cell::U(x)) = r.last() { Some(*x) } else { None }).collect();
+                    if ids.is_empty() {
+                        return Ok(vec![]);
                     }
-                }
-                Err(e) => v.push(Violation::new("take", &format!("{mode}/take-error"), format!("take failed: {e}"), case.clone())),
-            }
-            // row ids reported by a scan of the copy resolve through take_rows
-            if let Ok((_, rows)) = vds::scan_cells(&ds, true, false).await {
-                let ids: Vec<u64> = rows.iter().filter_map(|r| if let Some(Cell::U(x)) = r.last() { Some(*x) } else { None }).collect();
-                if ids.len() == n {
-                    let keys = vec![ids[n - 1], ids[0]];
+                    let keys = vec![ids[ids.len() - 1], ids[0]];
                     let pr = ProjectionRequest::from_columns(["uid"], ds.schema());
-                    match ds.take_rows(&keys, pr).await {
-                        Ok(b) => {
-                            let got = vds::cells::batch_rows(&b);
-                            let exp = vec![vec![latest.rows[n - 1][0].clone()], vec![latest.rows[0][0].clone()]];
-                            if got != exp {
-                                v.push(Violation::new("take", &format!("{mode}/take_rows-mismatch"), format!("take_rows {keys:?} -> {got:?}, expected {exp:?}"), case.clone()));
-                            }
-                        }
-                        Err(e) => v.push(Violation::new("take", &format!("{mode}/take_rows-error"), format!("take_rows failed: {e}"), case.clone())),
-                    }
-                }
+                    ds.take_rows(&keys, pr).await.map(|b| vds::cells::batch_rows(&b))
+                }),
+            );
+        }
+        put(&mut obs, &norm, "validate", vds::run_catch(ds.validate()));
+        obs
+    }
+
+    /// what the model expects the *original* to show (only for observations the model knows)
+    fn expected(&self, st: &St) -> BTreeMap<String, Value> {
+        let mut e: BTreeMap<String, Value> = BTreeMap::new();
+        e.insert("versions".into(), json!({"ok": st.versions.keys().collect::<Vec<_>>()}));
+        for (v, s) in &st.versions {
+            e.insert(format!("version/{v}"), json!({"ok": s}));
+        }
+        e.insert("tags".into(), json!({"ok": st.tags}));
+        for (t, v) in &st.tags {
+            if let Some(s) = st.versions.get(v) {
+                e.insert(format!("tag/{t}"), json!({"ok": s}));
             }
         }
-        if let Err(e) = ds.validate().await {
-            v.push(Violation::new("validate", &format!("{mode}/validate"), format!("validate() of the copy failed: {e}"), case.clone()));
+        let latest = st.versions.values().last().unwrap();
+        let k1: Vec<Vec<Cell>> = latest.rows.iter().filter(|r| r[1] == Cell::I(1)).cloned().collect();
+        e.insert("filter-k-eq-1".into(), json!({"ok": k1}));
+        let n = latest.rows.len();
+        if n > 0 {
+            e.insert("take".into(), json!({"ok": [latest.rows[n - 1][..3].to_vec(), latest.rows[0][..3].to_vec()]}));
+            e.insert("take_rows".into(), json!({"ok": [[latest.rows[n - 1][0].clone()], [latest.rows[0][0].clone()]]}));
         }
-        let (_, problems) = vds::structure::check_struct(&ds).await;
-        for p in problems {
-            let p: String = p.chars().filter(|c| !c.is_ascii_digit()).take(90).collect();
-            self.foreign.lock().unwrap().insert(format!("C05 O-struct on the copy: {p}"));
+        e.insert("validate".into(), json!({"ok": null}));
+        if st.has_index {
+            e.insert("filter-plan-uses-index".into(), json!({"ok": true}));
         }
-        v
+        e
+    }
+}
+
+fn obs_kind(name: &str) -> &str {
+    name.split('/').next().unwrap_or(name)
+}
+
+fn obs_class(v: &Value) -> &'static str {
+    if v.get("ok").is_some() {
+        "ok"
+    } else if v.get("error").is_some() {
+        "error"
+    } else {
+        "panic"
     }
 }
 
@@ -471,7 +469,8 @@ impl Sut for Sys {
             }
             _ => {}
         }
-        // byte-for-byte copy, original removed, copy checked
+        // byte-for-byte copy; the ORIGINAL is observed through a fresh session, then removed; the COPY is
+        // observed the same way and must show exactly what the original showed (outcome class and payload)
         let copied = copy_tree(&work.tbl(), &dest.tbl());
         let (files, bytes) = match copied {
             Ok(x) => x,
@@ -479,15 +478,55 @@ impl Sut for Sys {
         };
         self.bump("files_copied", files as u64);
         self.bump("bytes_copied", bytes);
+        let orig = self.observe(&next, &work);
         drop(work);
-        let dpath = dest.tbl();
-        let viol = match vds::run_catch(self.check_copy(&next, &dpath, kind(op))) {
-            Ok(v) => v,
-            Err(p) => {
-                let site: String = p.chars().filter(|c| !c.is_ascii_digit()).take(60).collect();
-                vec![Violation::new("panic", &format!("{mode}/after-{}/panic-on-copy", kind(op)), format!("panic while reading the copy: {site}"), json!({}))]
+        let copy = self.observe(&next, &dest);
+        let mut viol = vec![];
+        let names: BTreeSet<&String> = orig.keys().chain(copy.keys()).collect();
+        for name in names {
+            self.bump("observations_compared", 1);
+            let (o, c) = (orig.get(name), copy.get(name));
+            if o != c {
+                let oc = o.map(obs_class).unwrap_or("absent");
+                let cc = c.map(obs_class).unwrap_or("absent");
+                let short = |v: Option<&Value>| v.map(|x| x.to_string().chars().take(300).collect::<String>()).unwrap_or("<absent>".into());
+                viol.push(Violation::new(
+                    "copy-vs-original",
+                    &format!("{mode}/copy-differs/{}/{oc}-vs-{cc}", obs_kind(name)),
+                    format!("after {}: observation {name}: original {} but copy {}", kind(op), short(o), short(c)),
+                    json!({"observation": name, "original": o, "copy": c}),
+                ));
             }
+        }
+        // what the original itself gets wrong with respect to the model belongs to other properties
+        for (name, exp) in self.expected(&next) {
+            if let Some(o) = orig.get(&name) {
+                if *o != exp {
+                    let detail: String = match o.get("ok") {
+                        Some(_) => "differs from the model".to_string(),
+                        None => o.to_string().chars().take(120).collect(),
+                    };
+                    self.foreign.lock().unwrap().insert(format!(
+                        "original table ({mode}) after {}: {} {}",
+                        kind(op),
+                        obs_kind(&name),
+                        detail
+                    ));
+                    self.bump("original_disagrees_with_model", 1);
+                }
+            }
+        }
+        let (_, problems) = match vds::run_catch(async {
+            let d = open(&dest.tbl()).await?;
+            lance::Result::Ok(vds::structure::check_struct(&d).await)
+        }) {
+            Ok(Ok(x)) => x,
+            _ => (None, vec![]),
         };
+        for p in problems {
+            let p: String = p.chars().filter(|c| !c.is_ascii_digit()).take(90).collect();
+            self.foreign.lock().unwrap().insert(format!("C05 O-struct on the copy: {p}"));
+        }
         next.depth = st.depth + 1;
         if next.depth >= self.max_depth {
             // a state of the last level is never expanded: remove its directory now (in this worker)
